@@ -16,6 +16,9 @@ def cFalse : Con := { id := 0, vars := [], sem := fun _ => false, isFalse := tru
 /-- a real constraint: `x <= 5` -/
 def cCon : Con := { id := 1, vars := [0], sem := fun a => decide (a 0 % 8 ≤ 5) }
 
+/-- `x == 5`, with the shape `_trivial_model_optimization` looks for (`BVS == constant`, the expression `x` has id 1) -/
+def cEq : Con := { id := 2, vars := [0], sem := fun a => decide (a 0 = 5), triv := some (0, 5, 1) }
+
 /-- an injective code of the constraints built from `cExp` -/
 def keyCode : BuildKey → Nat × Int × List Nat
   | .ule _ m => (0, m, [])
@@ -36,7 +39,7 @@ theorem keyCode_sem {k k' : BuildKey} (h : keyCode k = keyCode k') (he : k.exp =
     | (obtain ⟨_, _, rfl⟩ := h; rfl)
     | omega
 
-def cBuild (k : BuildKey) : Con := { id := 2 + Encodable.encode (keyCode k), vars := [0], sem := k.sem }
+def cBuild (k : BuildKey) : Con := { id := 3 + Encodable.encode (keyCode k), vars := [0], sem := k.sem }
 
 /-- decides every query some value of variable 0 settles; gives up on the others -/
 noncomputable def cOracle (q : Query) (_k : Nat) : Answer :=
@@ -49,7 +52,7 @@ noncomputable def cEnv : Env :=
     cheapFalse := fun _ _ _ => false, truth := fun _ _ _ => false, simp := fun cs _ => cs,
     pick := fun all n _ => all.take n }
 
-def cR (c : Con) : Prop := c = cFalse ∨ c = cCon ∨ ∃ k : BuildKey, k.exp = cExp ∧ c = cBuild k
+def cR (c : Con) : Prop := c = cFalse ∨ c = cCon ∨ c = cEq ∨ ∃ k : BuildKey, k.exp = cExp ∧ c = cBuild k
 def cRE (e : Exp) : Prop := e = cExp
 
 theorem foldl_listInsert_nodup {α : Type} [BEq α] [LawfulBEq α] (l acc : List α) (h : (acc ++ l).Nodup) :
@@ -78,21 +81,26 @@ theorem cHyps : SolverHyps cR cRE cEnv := by
     ⟨fun _ _ _ h => by simp [cEnv] at h, fun _ _ h => by simp [cEnv] at h, fun _ _ h => by simp [cEnv] at h⟩, ?_,
     ⟨?_, ?_, ?_⟩, ⟨?_, ?_⟩, ?_, ?_⟩
   · -- equal ids, equal meaning
-    rintro c c' (rfl | rfl | ⟨k, hk, rfl⟩) (rfl | rfl | ⟨k', hk', rfl⟩) hid a <;>
-      first | rfl | (simp [cFalse, cCon, cBuild] at hid; done) | skip
+    rintro c c' (rfl | rfl | rfl | ⟨k, hk, rfl⟩) (rfl | rfl | rfl | ⟨k', hk', rfl⟩) hid a <;>
+      first | rfl | (simp [cFalse, cCon, cEq, cBuild] at hid; done) | skip
     all_goals first
-      | (simp only [cFalse, cCon, cBuild] at hid; omega)
+      | (simp only [cFalse, cCon, cEq, cBuild] at hid; omega)
       | skip
     have hcode : keyCode k = keyCode k' := by
       have : Encodable.encode (keyCode k) = Encodable.encode (keyCode k') := by
         simp only [cBuild] at hid; omega
       exact Encodable.encode_injective this
     exact keyCode_sem hcode (hk.trans hk'.symm) a
-  · rintro c (rfl | rfl | ⟨k, hk, rfl⟩)
+  · rintro c (rfl | rfl | rfl | ⟨k, hk, rfl⟩)
     · exact ⟨fun _ _ _ => rfl, fun _ _ => rfl, fun b hb a => by simp [cFalse] at hb ⊢; exact hb,
         fun _ _ _ h => by simp [cFalse] at h⟩
     · exact ⟨fun a a' h => by simp [cCon, h 0 (by simp [cCon])], fun h => by simp [cCon] at h,
         fun b hb => by simp [cCon] at hb, fun _ _ _ h => by simp [cCon] at h⟩
+    · refine ⟨fun a a' h => by simp [cEq, h 0 (by simp [cEq])], fun h => by simp [cEq] at h,
+        fun b hb => by simp [cEq] at hb, fun v x eid h => ?_⟩
+      simp only [cEq, Option.some.injEq, Prod.mk.injEq] at h
+      obtain ⟨rfl, rfl, rfl⟩ := h
+      exact ⟨rfl, fun _ => rfl⟩
     · exact cBuild_wf k hk
   · intro cs k h c hc; exact h c hc
   · -- the oracle is exact
@@ -142,27 +150,37 @@ theorem cHyps : SolverHyps cR cRE cEnv := by
       exact ⟨0, by simp [cExp], by simp⟩
     · rw [dif_neg h] at this
       split at this <;> cases this
-  · rintro c (rfl | rfl | ⟨k, _, rfl⟩) v x eid ht <;> simp [cFalse, cCon, cBuild] at ht
+  · rintro c (rfl | rfl | rfl | ⟨k, _, rfl⟩) v x eid ht
+    · simp [cFalse] at ht
+    · simp [cCon] at ht
+    · simp only [cEq, Option.some.injEq, Prod.mk.injEq] at ht
+      obtain ⟨rfl, rfl, rfl⟩ := ht
+      refine ⟨fun a ha => by simp [cEq, ha], ?_⟩
+      rintro e rfl _
+      exact ⟨fun a ha => by simp only [cEq, decide_eq_true_eq] at ha; simp [cExp, ha],
+             fun a ha => by simp [cExp, ha]⟩
+    · simp [cBuild] at ht
   · rintro key hk
-    exact ⟨Or.inr (Or.inr ⟨key, hk, rfl⟩), fun _ => rfl, fun v hv => by rw [hk]; simpa [cEnv, cBuild, cExp] using hv⟩
+    exact ⟨Or.inr (Or.inr (Or.inr ⟨key, hk, rfl⟩)), fun _ => rfl, fun v hv => by rw [hk]; simpa [cEnv, cBuild, cExp] using hv⟩
 
 /-- a concrete expression: `BVV(3, 3)` -/
 def cThree : Exp := { id := 7, bits := 3, vars := [], val := fun _ => 3, conc := some 3 }
 
 /-- a history in scope on a tree of two solvers: constrain, optimise, branch, enumerate in the child, ask again in the parent -/
 def cHist : List (Nat × Op) :=
-  [(0, .add [cCon]), (0, .max cExp [] false), (0, .branch), (1, .eval cExp 10 []), (1, .add [cCon]),
+  [(0, .add [cEq]), (0, .eval cExp 4 []), (0, .add [cCon]), (0, .max cExp [] false), (0, .branch), (1, .eval cExp 10 []), (1, .add [cCon]),
    (0, .min cExp [] true), (1, .solution cExp 7 []), (0, .simplify), (1, .satisfiable [cCon]), (1, .pickle),
    (1, .batchEval [cExp, cThree] 4 []), (0, .downsize), (0, .isTrue cCon [])]
 
 theorem cHist_ok : HistOkS cR cRE 1 cHist := by
   have hc : cR cCon := Or.inr (Or.inl rfl)
+  have hq : cR cEq := Or.inr (Or.inr (Or.inl rfl))
   have he : cRE cExp := rfl
   have hwf : ConWf cCon :=
     ⟨fun a a' h => by simp [cCon, h 0 (by simp [cCon])], fun h => by simp [cCon] at h,
      fun b hb => by simp [cCon] at hb, fun _ _ _ h => by simp [cCon] at h⟩
   simp only [cHist, HistOkS, InScopeS, List.mem_singleton, forall_eq, List.not_mem_nil, false_implies, implies_true, and_true]
-  refine ⟨by omega, hc, by omega, he, by omega, trivial, by omega, ⟨he, by omega⟩, by omega, hc, by omega, he, by omega,
+  refine ⟨by omega, hq, by omega, ⟨he, by omega⟩, by omega, hc, by omega, he, by omega, trivial, by omega, ⟨he, by omega⟩, by omega, hc, by omega, he, by omega,
     ⟨he, by simp [cExp]⟩, by omega, trivial, by omega, hwf, by omega, trivial, by omega, ⟨?_, by omega⟩, by omega, trivial,
     by omega, hwf⟩
   intro e hemem
